@@ -1,0 +1,71 @@
+//go:build verif
+
+// Contracts for the remaining small gRPC handlers (C10, C18), checked by /verif (govc).
+// Comment-only file.
+
+package server
+
+//@ iface (github.com/buchgr/bazel-remote/v2/cache/disk.Cache).FindMissingCasBlobs(c, ctx, blobs)
+//@   modifies elems(blobs)
+
+// FindMissingBlobs hands the request's digest list, unchanged and complete, to the cache (after
+// checking that no digest is nil or malformed) and returns exactly what the cache reports (C10).
+//@ func (s *grpcServer) FindMissingBlobs(ctx context.Context, req *pb.FindMissingBlobsRequest) (*pb.FindMissingBlobsResponse, error)
+//@   serves C10 C14
+//@   requires s != nil && s.cache != nil && s.accessLogger != nil && ctx != nil
+//@   modifies elems(req.BlobDigests)
+//@   ensures[C14] oneof: (result1 == nil) <==> (result0 != nil)
+//@   call Cache.FindMissingCasBlobs#* asserts[C10] whole: arr(arg2) == arr(req.BlobDigests) && offset(arg2) == offset(req.BlobDigests) && len(arg2) == len(req.BlobDigests)
+//@   call Cache.FindMissingCasBlobs#* asserts[C10,C14] nonnil: forall k Int :: (offset(req.BlobDigests) <= k && k < offset(req.BlobDigests) + len(req.BlobDigests)) ==> elems(req.BlobDigests)[k] != 0
+//@   lensures[C10] verbatim: result1 == nil ==> (arr(result0.MissingBlobDigests) == arr(missingBlobs) && offset(result0.MissingBlobDigests) == offset(missingBlobs) && len(result0.MissingBlobDigests) == len(missingBlobs))
+//@   loop 0 invariant[C14] nonnil: forall k Int :: (offset(req.BlobDigests) <= k && k < offset(req.BlobDigests) + rangeindex + 1) ==> elems(req.BlobDigests)[k] != 0
+//@   loop 0 modifies nothing
+
+// The advertised blob size limit is the configured one (C18).
+//@ func (s *grpcServer) GetCapabilities(ctx context.Context, req *pb.GetCapabilitiesRequest) (*pb.ServerCapabilities, error)
+//@   serves C18 C14
+//@   requires s != nil && s.accessLogger != nil
+//@   ensures[C18] advertised: result1 == nil && result0 != nil && result0.CacheCapabilities != nil && result0.CacheCapabilities.MaxCasBlobSizeBytes == s.maxCasBlobSizeBytes
+
+// BatchReadBlobs (C02): every digest is looked up in the CAS with its own hash and size from
+// offset 0, compressed only if the client accepts zstd; a blob found with another size is
+// reported NOT_FOUND, and data is attached only to a response whose lookup succeeded.
+//@ func (s *grpcServer) getBlobResponse(ctx context.Context, digest *pb.Digest, allowZstd bool) *pb.BatchReadBlobsResponse_Response
+//@   serves C02 C14
+//@   requires s != nil && s.cache != nil && s.accessLogger != nil && s.errorLogger != nil && ctx != nil && digest != nil
+//@   modifies icloseN, iclosed
+//@   ensures[C02] response: result != nil && result.Digest == digest
+//@   ensures[C02] dataonlyok: len(result.Data) > 0 ==> (result.Status == nil || result.Status.Code == 0)
+//@   call Cache.GetZstd#* asserts[C02] zstd: allowZstd && arg2 == digest.Hash && arg3 == digest.SizeBytes && arg4 == 0
+//@   call getBlobData#* asserts[C02] plain: !allowZstd && arg2 == digest.Hash && arg3 == digest.SizeBytes
+//@   call ReadAll#* asserts[C02] samesize: rc != nil && foundSize == digest.SizeBytes && err == nil
+
+//@ func (s *grpcServer) BatchReadBlobs(ctx context.Context, in *pb.BatchReadBlobsRequest) (*pb.BatchReadBlobsResponse, error)
+//@   serves C02 C14
+//@   requires s != nil && s.cache != nil && s.accessLogger != nil && s.errorLogger != nil && ctx != nil
+//@   noframe
+//@   ensures[C14] oneof: (result1 == nil) <==> (result0 != nil)
+//@   call getBlobResponse#* asserts[C02] each: arg2 == digest && digest != nil && arg3 == allowZstd
+//@   loop 0 modifies nothing
+
+// SpliceBlob (C01, C18): the spliced blob is stored in the CAS under the digest of the request
+// (given or computed), whose size is the sum of the chunk sizes, is positive and within the
+// configured limit; the chunks are read from the CAS under their own digests. That the bytes
+// hash to the digest is decided by the cache's Put (disk layer).
+//@ func (s *grpcServer) SpliceBlob(ctx context.Context, req *pb.SpliceBlobRequest) (*pb.SpliceBlobResponse, error)
+//@   serves C01 C18
+//@   requires s != nil && s.cache != nil && s.accessLogger != nil && s.errorLogger != nil && ctx != nil
+//@   noframe
+//@   nosafety
+//@   ensures[C01] oneof: (result1 == nil) <==> (result0 != nil)
+//@   call Cache.Put#* asserts[C01] digest: arg2 == 1 && req.BlobDigest != nil && arg3 == req.BlobDigest.Hash && arg4 == req.BlobDigest.SizeBytes && arg4 == chunkTotal && arg4 > 0
+//@   call Cache.Put#* asserts[C18] limit: s.maxCasBlobSizeBytes > 0 ==> arg4 <= s.maxCasBlobSizeBytes
+//@   call Cache.Get#* asserts[C01] chunk: arg2 == 1 && arg3 == chunkDigest.Hash && arg4 == chunkDigest.SizeBytes && arg5 == 0
+
+// the goroutine that feeds the chunks to Put
+//@ func (s *grpcServer) SpliceBlob$1()
+//@   serves C01
+//@   requires s != nil && s.cache != nil && req != nil && pw != nil
+//@   noframe
+//@   nosafety
+//@   call Cache.Get#* asserts[C01] chunk: arg2 == 1 && arg3 == chunkDigest.Hash && arg4 == chunkDigest.SizeBytes && arg5 == 0
